@@ -1,8 +1,8 @@
-\* quick exhaustive: area 4, K=2, 2 callers, 2 heights, raw and cascade wiring, 3 calls, 2 environment actions (cancel/flush/restart/crash)
+\* thorough: K=1
 SPECIFICATION Spec
 CONSTANTS
   Coords = {c0, c1, c2, c3}
-  K = 2
+  K = 1
   Callers = {p1, p2}
   Heights = {h1, h2}
   NoCaller = NoCaller
@@ -12,7 +12,7 @@ CONSTANTS
   CascadeModes = {FALSE, TRUE}
   PersistOnEmpty = TRUE
   CrashForgiven = TRUE
-  MaxCalls = 3
+  MaxCalls = 4
   MaxEnv = 2
   RecordHist = FALSE
 SYMMETRY Sym
